@@ -26,29 +26,29 @@ Inductive wire_run_next :=
 | NxRaise (e : wire_run_exn).
 
 (* Wire.run, program point 0: entry (the kernel processes the Initialize event) *)
-Definition gen_Wire_run_from_0 (loss_rate : option Q) (now : Q) (current_time : Q) (debug : bool) (out_set : bool) (u : Q) (dd : Q)
+Definition gen_Wire_run_from_0 (loss_rate : option Q) (now : Q) (entered : Q) (debug : bool) (out_set : bool) (u : Q) (dd : Q)
   : list wire_run_fx * wire_run_next :=
   ([], (NxYield RqStoreGet PP1)).
 
-(* Wire.run, program point 1: resumed after line 34: `packet = yield self.store.get()`; objects bound: packet *)
-Definition gen_Wire_run_from_1 (loss_rate : option Q) (now : Q) (current_time : Q) (debug : bool) (out_set : bool) (u : Q) (dd : Q)
+(* Wire.run, program point 1: resumed after line 38: `entry = yield self.store.get()`; objects bound: entry *)
+Definition gen_Wire_run_from_1 (loss_rate : option Q) (now : Q) (entered : Q) (debug : bool) (out_set : bool) (u : Q) (dd : Q)
   : list wire_run_fx * wire_run_next :=
   (match loss_rate with
-   | None => let queued_time1 := (now - current_time)%Q in
+   | None => let queued_time1 := (now - entered)%Q in
              (if (negb (Qle_bool dd queued_time1))
               then ([FxDelayDist], (NxYield (RqTimeout (dd - queued_time1)%Q) PP2))
               else (if out_set
                     then ([FxDelayDist; FxOutPut], (NxYield RqStoreGet PP1))
                     else ([FxDelayDist], (NxRaise ExAssert))))
    | Some loss_rate' => (if (negb (negb (Qeq_bool loss_rate' 0)))
-                         then let queued_time1 := (now - current_time)%Q in
+                         then let queued_time1 := (now - entered)%Q in
                               (if (negb (Qle_bool dd queued_time1))
                                then ([FxDelayDist], (NxYield (RqTimeout (dd - queued_time1)%Q) PP2))
                                else (if out_set
                                      then ([FxDelayDist; FxOutPut], (NxYield RqStoreGet PP1))
                                      else ([FxDelayDist], (NxRaise ExAssert))))
                          else (if (Qle_bool loss_rate' u)
-                               then let queued_time1 := (now - current_time)%Q in
+                               then let queued_time1 := (now - entered)%Q in
                                     (if (negb (Qle_bool dd queued_time1))
                                      then ([FxUniform; FxDelayDist], (NxYield (RqTimeout (dd - queued_time1)%Q) PP2))
                                      else (if out_set
@@ -57,8 +57,8 @@ Definition gen_Wire_run_from_1 (loss_rate : option Q) (now : Q) (current_time : 
                                else ([FxUniform], (NxYield RqStoreGet PP1))))
    end).
 
-(* Wire.run, program point 2: resumed after line 45: `yield env.timeout(delay - queued_time)`; objects bound: packet *)
-Definition gen_Wire_run_from_2 (loss_rate : option Q) (now : Q) (current_time : Q) (debug : bool) (out_set : bool) (u : Q) (dd : Q)
+(* Wire.run, program point 2: resumed after line 49: `yield env.timeout(delay - queued_time)`; objects bound: entry *)
+Definition gen_Wire_run_from_2 (loss_rate : option Q) (now : Q) (entered : Q) (debug : bool) (out_set : bool) (u : Q) (dd : Q)
   : list wire_run_fx * wire_run_next :=
   (if out_set
    then ([FxOutPut], (NxYield RqStoreGet PP1))
